@@ -119,6 +119,8 @@ static int _GD_DeReferenceOne(DIRFILE *restrict D, gd_entry_t *restrict E,
             E->scalar_ind[i], 1, type, data);
         free(E->scalar[i]);
         E->scalar[i] = NULL;
+        /* the client's specification has changed */
+        D->fragment[E->fragment_index].modified = 1;
       }
     }
   }
